@@ -77,3 +77,48 @@ Definition run (cd : cstate * dstate) (ops : list op) : cstate * dstate := fold_
 (* every table marked "sent" is the table the decoder holds *)
 Definition consistent (cd : cstate * dstate) : Prop :=
   forall t tb, fst cd t = Some tb -> t_sent tb = true -> snd cd t = Some (t_vals tb).
+
+(* ---------------------------------------------------------------- (3) decompress_data: "force some input" *)
+(* input position: scan si, ri = input_iMCU_row = iMCU rows of scan si read completely (the row the
+   input side is about to read); one consume_input step reads one more row, after the last row of a
+   scan the next scan starts at row 0 *)
+Definition input_step (nrows : nat) (p : nat * nat) : nat * nat :=
+  let (si, ri) := p in if (S ri <? nrows)%nat then (si, S ri) else (S si, O).
+
+(* the loop condition, `ahead` = rows the input must have completed beyond output_iMCU_row when the
+   scans coincide (the source has ahead = 1: input_iMCU_row <= output_iMCU_row keeps reading) *)
+Definition must_read (ahead so ro : nat) (p : nat * nat) : bool :=
+  let (si, ri) := p in (si <? so)%nat || ((si =? so)%nat && (ri <? ro + ahead)%nat).
+
+Fixpoint force_input (fuel : nat) (ahead nrows so ro : nat) (p : nat * nat) : nat * nat :=
+  match fuel with
+  | O => p
+  | S f => if must_read ahead so ro p then force_input f ahead nrows so ro (input_step nrows p) else p
+  end.
+
+(* row ro of the coefficient arrays already holds the data of scan so *)
+Definition row_has_scan_data (so ro : nat) (p : nat * nat) : Prop :=
+  let (si, ri) := p in (so < si)%nat \/ (si = so /\ (ro < ri)%nat).
+
+(* ---------------------------------------------------------------- (4) jddctmgr.c start_pass, one component *)
+(* per output pass: lat = the component's latched quant table (None before its first scan);
+   state = (marked built for this method, multiplier table; None = still all-zero) *)
+Definition idct_start_pass (mark_after_check : bool) (st : bool * option (list Z)) (lat : option (list Z))
+  : bool * option (list Z) :=
+  let (built, tbl) := st in
+  if built then st
+  else if mark_after_check then
+    match lat with None => st | Some q => (true, Some q) end
+  else
+    match lat with None => (true, tbl) | Some q => (true, Some q) end.
+
+Definition idct_passes (lats : list (option (list Z))) : bool * option (list Z) :=
+  fold_left (idct_start_pass idct_marks_table_built_after_quant_table_check) lats (false, None).
+
+(* a quant table, once latched for an image, stays the same *)
+Fixpoint latch_monotone (q : list Z) (lats : list (option (list Z))) : Prop :=
+  match lats with
+  | [] => True
+  | None :: r => latch_monotone q r
+  | Some q' :: r => q' = q /\ Forall (fun x => x = Some q) r
+  end.
